@@ -25,6 +25,7 @@ pub struct PaddingFactory {
 /// Global padding factory (replaceable: a scheme pushed by the server becomes the new default)
 static DEFAULT_FACTORY: std::sync::RwLock<Option<Arc<PaddingFactory>>> =
     std::sync::RwLock::new(None);
+static DEFAULT_UPDATED: std::sync::atomic::AtomicBool = std::sync::atomic::AtomicBool::new(false);
 
 impl PaddingFactory {
     /// Create a new PaddingFactory from raw scheme bytes
@@ -75,7 +76,18 @@ impl PaddingFactory {
         // Replace the default even if it has been read or set before: every
         // push during the life of the process must take effect.
         *DEFAULT_FACTORY.write().unwrap() = Some(factory);
+        DEFAULT_UPDATED.store(true, std::sync::atomic::Ordering::SeqCst);
         Ok(())
+    }
+
+    /// The default factory if it has been replaced through `update_default`
+    /// (e.g. by a scheme the server pushed), `None` while the built-in one is in use.
+    pub fn updated_default() -> Option<Arc<Self>> {
+        if DEFAULT_UPDATED.load(std::sync::atomic::Ordering::SeqCst) {
+            DEFAULT_FACTORY.read().unwrap().clone()
+        } else {
+            None
+        }
     }
 
     /// Get the stop value
